@@ -231,7 +231,16 @@ impl_envelope_encodable!(bool);
 
 // Floating point types
 impl_envelope_encodable!(f64);
-impl_envelope_encodable!(f32);
+
+impl From<f32> for Envelope {
+    /// Converts this value into an envelope.
+    fn from(value: f32) -> Self {
+        // Widening is exact. dCBOR's numeric reduction is only complete for
+        // `f64`: given as `f32`, an integral value of 2^32 or more is left a
+        // float, and a negative one is encoded as the integer below it.
+        Envelope::new_leaf(value as f64)
+    }
+}
 
 // CBOR types
 impl_envelope_encodable!(dcbor::ByteString);
